@@ -148,6 +148,17 @@ def gen(rng, nm, na):
             dtq = F(c["dt"]); k0 = rng.randint(1, 3); rep = rng.choice([F(2), F(3)])
             kr = k0 + math.ceil(rep / dtq)
             c["faults"] = {str(k0): [["ML1", str(rep)]], str(kr - rng.choice([0, 1, 1])): [["SML0", str(rng.choice([F(3), F(6)]))]]}
+            if (j // 5) % 2 == 1:
+                # the same in the feeder itself: a line with disconnectors at both ends fails and is repaired while the feeder breaker
+                # is closed again; the sensor of another feeder line fails right before the repair
+                fd = c["spec"]["feeders"][0]
+                while len(fd["parent"]) < 3:
+                    fd["parent"].append(len(fd["parent"]) - 1)
+                    for key, v in (("sw", 3), ("cust", 1), ("load", "1/50"), ("cost", 1)):
+                        fd[key].append(v)
+                kk = rng.randrange(1, len(fd["parent"])); fd["sw"][kk] = 3
+                other = rng.choice([x for x in range(len(fd["parent"])) if x != kk])
+                c["faults"] = {str(k0): [[f"F0L{kk}", str(rep)]], str(kr - rng.choice([0, 1, 1])): [[f"SF0L{other}", str(rng.choice([F(3), F(6)]))]]}
             c["n_inc"] = kr + int((F(c["spec"]["ctrl"]["T"]) + 6) / dtq) + 10
             cases.append(c)
             continue
